@@ -292,6 +292,110 @@ def c10_run(tid, wcfg, cfgline, state, cls, data):
     return rec.lines
 
 
+# ----------------------------------------------------------------------------- C16
+RULE_CLASS = {'state': 'read', 'statistic': 'read', 'version/send': 'read', 'version/received': 'read', 'version/bogus': 'read',
+              'manual-start': 'ctl', 'manual-stop': 'ctl', 'send/update': 'send', 'send/route-refresh': 'send', 'send/bin_update': 'send',
+              'json_to_bin': 'gated', 'adj-rib-in': 'gated', 'adj-rib-out': 'gated'}
+C16_STATES = ['PREBOOT', 'CONNECT', 'OPENSENT', 'OPENCONFIRM', 'ESTABLISHED', 'IDLE_CLOSING', 'IDLE_HOLD', 'STOPPED']
+METHODS = ['GET', 'POST', 'PUT', 'DELETE', 'HEAD']
+CREDS = ['none', 'baduser', 'badpass', 'good']
+BIN_UPDATE = wire.simple_update(prefixes=((24, b'\x0a\x07\x07'),), asns=(65001,), asn4=True)
+
+
+def url_rules():
+    """the rules under /v1/peer/ of the REAL URL map, with the variable parts filled in"""
+    out = []
+    for r in world.app.url_map.iter_rules():
+        if not r.rule.startswith('/v1/peer/<peer_ip>/'):
+            continue
+        tail = r.rule[len('/v1/peer/<peer_ip>/'):]
+        if '<action>' in tail:
+            out += [tail.replace('<action>', a) for a in ('send', 'received', 'bogus')]
+        else:
+            out.append(tail)
+    return sorted(set(out))
+
+
+def bodies_for(rule):
+    """[(name, json body or None, rq description)]"""
+    u = {'cls': RULE_CLASS.get(rule, 'unknown'), 'valid': False, 'etype': '', 'wdn': 0, 'nln': 0, 'ats': [], 'ibgp': False}
+    if rule == 'send/update':
+        base = {'1': 0, '2': [[2, [65001]]], '3': '10.0.0.1'}
+        return [('announce', {'attr': dict(base), 'nlri': ['10.5.0.0/16', '10.6.6.0/24']}, dict(u, valid=True, etype='UPDATE', nln=2, ats=[1, 2, 3])),
+                ('announce-lp', {'attr': dict(base, **{'5': 200, '4': 7}), 'nlri': ['10.5.0.0/16']}, dict(u, valid=True, etype='UPDATE', nln=1, ats=[1, 2, 3, 5, 4])),
+                ('withdraw', {'withdraw': ['10.5.0.0/16']}, dict(u, valid=True, etype='UPDATE', wdn=1)),
+                ('both', {'attr': dict(base), 'nlri': ['10.5.0.0/16'], 'withdraw': ['10.9.0.0/16', '10.8.0.0/16']}, dict(u, valid=True, etype='UPDATE', wdn=2, nln=1, ats=[1, 2, 3])),
+                ('empty', {}, dict(u, etype='UPDATE'))]
+    if rule == 'send/route-refresh':
+        return [('ipv4', {'afi': 1, 'safi': 1}, dict(u, valid=True, etype='RR')), ('unsupported-family', {'afi': 2, 'safi': 1}, dict(u, etype='RR')),
+                ('no-afi', {'safi': 1}, dict(u, etype='RR'))]
+    if rule == 'send/bin_update':
+        return [('update-hex', {'binary_data': BIN_UPDATE.hex()}, dict(u, valid=True, etype='UPDATE', nln=1, ats=[1, 2, 3])),
+                ('odd-length', {'binary_data': 'abc'}, dict(u, etype='UPDATE')), ('nothing', {}, dict(u, etype='UPDATE'))]
+    if rule == 'json_to_bin':
+        return [('announce', {'attr': {'1': 0, '2': [], '3': '10.0.0.1'}, 'nlri': ['10.5.0.0/16']}, dict(u, valid=True))]
+    if rule in ('adj-rib-in', 'adj-rib-out'):
+        return [('lookup', {'data': ['10.5.0.0/16']}, dict(u, valid=True))]
+    return [('none', None, u)]
+
+
+def c16_reach(w, rec, state):
+    """bring the agent into `state`; -> connector index of the session (0 if none)"""
+    if state == 'PREBOOT':
+        return 0
+    rec.step({'k': 'boot', 'c': 0}, 0)
+    if state == 'CONNECT':
+        return 0
+    rec.step({'k': 'connOk', 'c': 1}, 1)
+    if state == 'OPENSENT':
+        return 1
+    if state == 'IDLE_CLOSING' or state == 'IDLE_HOLD':
+        rec.step({'k': 'msg', 'c': 1, 'm': 'BADTYPE'}, 1)
+        if state == 'IDLE_HOLD':
+            rec.step({'k': 'connLost', 'c': 1}, 1)
+        return 1
+    rec.step({'k': 'msg', 'c': 1, 'm': 'OPEN', 'h': 90}, 1)
+    if state == 'OPENCONFIRM':
+        return 1
+    rec.step({'k': 'msg', 'c': 1, 'm': 'KA'}, 1)
+    if state == 'STOPPED':
+        rec.step({'k': 'stop', 'c': 0}, 0)
+    return 1
+
+
+def c16_run(tid, wcfg, cfgline, state, rule, method, cred, bname, body, rq):
+    w = World(wcfg)
+    rec = R.Recorder(w, tid, cfgline)
+    c16_reach(w, rec, state)
+    pre = rec.pre['o']['stat']
+    rq = dict(rq, ibgp=wcfg['las'] == wcfg['ras'])
+    o = rec.step({'k': 'rest', 'c': 0, 'rule': rule, 'method': method, 'cred': cred, 'body': body if method in ('POST', 'PUT') else None, 'm': bname}, 0,
+                 extra={'rq': rq})
+    rec.lines[-1]['statsame'] = (pre == o['stat'])
+    # what the request left behind must not break the next ordinary events
+    if rec.pre['st'] == 'ESTABLISHED' and rec.pre['trcs'] == 'open':
+        rec.step({'k': 'msg', 'c': rec.pre['tr'], 'm': 'KA'}, rec.pre['tr'])
+    return rec.lines
+
+
+def c16_jobs(tier, seed):
+    rnd = random.Random(seed)
+    jobs = []
+    rules = url_rules()
+    for wcfg in (dict(las=65001, ras=65002, hold=90), dict(las=65001, ras=65001, hold=90)):
+        for state in C16_STATES:
+            for rule in rules:
+                for (bname, body, rq) in bodies_for(rule):
+                    for method in METHODS:
+                        for cred in CREDS:
+                            if tier == 'quick' and wcfg['las'] == wcfg['ras'] and not (rule.startswith('send/') and cred == 'good' and state == 'ESTABLISHED'):
+                                continue
+                            if cred != 'good' and bname not in ('announce', 'ipv4', 'update-hex', 'none', 'lookup'):
+                                continue
+                            jobs.append(('c16', wcfg, state, rule, method, cred, bname, body, rq))
+    return jobs
+
+
 def run_jobs(args):
     k, jobs, outdir, cfgline_fn = args
     path = os.path.join(outdir, 'scen_%04d.ndjson' % k)
@@ -302,6 +406,10 @@ def run_jobs(args):
                 _, cc, hist, final = job
                 wcfg = dict(tick=10.0, crt=20, idle=20, **cc)
                 lines = c05_run(tid, wcfg, cfgline_fn(wcfg), hist, final)
+            elif job[0] == 'c16':
+                _, cc, state, rule, method, cred, bname, body, rq = job
+                wcfg = dict(tick=10.0, crt=20, idle=20, **cc)
+                lines = c16_run(tid, wcfg, cfgline_fn(wcfg), state, rule, method, cred, bname, body, rq)
             else:
                 _, wcfg, state, cls, data = job
                 lines = c10_run(tid, wcfg, cfgline_fn(wcfg), state, cls, data)
